@@ -81,6 +81,11 @@ def stepT (N : Num α) (is32 : Bool) (s : Objs α) (op : String) (args : List St
     let v ← parseAll? N.parse rest
     let I' := I.include ⟨vecOf N s.dim (v.take s.dim), vecOf N s.dim (v.drop s.dim)⟩
     pure ({ s with itv := some I' }, unwords (fmtVec N I'.lower ++ fmtVec N I'.upper))
+  | "int.hullbox", [] =>
+    let I ← s.itv
+    if s.dim < 2 then none else
+    let J := (AABB.ofInterval I).toInterval
+    pure (s, unwords (fmtVec N J.lower ++ fmtVec N J.upper))
   | "int.inside", rest =>
     let I ← s.itv
     if rest.length ≠ s.dim then none else
